@@ -17,7 +17,7 @@ Open Scope N_scope.
 (* ---------- the straight-line functions ---------- *)
 
 Lemma validQos_equiv : T_ValidQos.
-Proof. intros q. unfold go_message_ValidQos. f_equal. lia. Qed.
+Proof. intros q. unfold go_message_ValidQos. go_cases; f_equal; lia. Qed.
 
 Lemma typeValid_equiv : T_TypeValid.
 Proof. intros t. unfold go_message_Valid, type_valid, valid_lo, valid_hi. f_equal. lia. Qed.
@@ -35,13 +35,28 @@ Proof.
 Qed.
 
 
+(* bytes.ContainsAny(t, "#+") on a model byte string *)
+Lemma contains_any_zb : forall t : bytes,
+  go_contains_any (zb t) [35; 43]%Z = existsb (fun b => (b =? 35) || (b =? 43)) t.
+Proof.
+  induction t as [|b t IH]; [reflexivity|]. rewrite zb_cons.
+  change (go_contains_any (Z.of_N b :: zb t) [35; 43]%Z)
+    with (((Z.of_N b =? 35)%Z || ((Z.of_N b =? 43)%Z || false)) || go_contains_any (zb t) [35; 43]%Z).
+  rewrite IH. cbn [existsb]. f_equal. rewrite orb_false_r. f_equal; apply eq_true_iff_eq; rewrite Z.eqb_eq, N.eqb_eq; lia.
+Qed.
+
 Lemma validTopic_equiv : T_ValidTopic.
 Proof.
-  intros t. unfold go_message_ValidTopic, valid_topic. f_equal.
-  rewrite existsb_or, go_len_zb. unfold len.
-  destruct (go_index_byte_spec t 35 35%Z eq_refl) as [[A1 B1]|[A1 B1]];
-  destruct (go_index_byte_spec t 43 43%Z eq_refl) as [[A2 B2]|[A2 B2]];
-  rewrite A1, A2; cbn [orb negb]; lia.
+  intros t. unfold go_message_ValidTopic, valid_topic.
+  first
+    [ (* two IndexByte calls *)
+      f_equal; rewrite existsb_or, go_len_zb; unfold len;
+      destruct (go_index_byte_spec t 35 35%Z eq_refl) as [[A1 B1]|[A1 B1]];
+      destruct (go_index_byte_spec t 43 43%Z eq_refl) as [[A2 B2]|[A2 B2]];
+      rewrite A1, A2; cbn [orb negb]; lia
+    | (* ContainsAny, the empty topic tested first or not *)
+      rewrite ?contains_any_zb, ?go_len_zb; unfold len;
+      destruct (existsb (fun b => (b =? 35) || (b =? 43)) t); go_cases; f_equal; cbn [negb andb]; lia ].
 Qed.
 
 (* ---------- length-prefixed strings ---------- *)
